@@ -320,7 +320,7 @@ func accessors(x any) string {
 			m.Name == "String" || m.Name == "Summary" {
 			continue
 		}
-		parts = append(parts, m.Name+"="+guard(func() string {
+		parts = append(parts, m.Name+"="+aliasGuard(func() string {
 			outs := v.Method(i).Call(nil)
 			var b strings.Builder
 			for j, o := range outs {
@@ -340,7 +340,7 @@ func accessors(x any) string {
 	return strings.Join(parts, ";")
 }
 
-func guard(f func() string) (out string) {
+func aliasGuard(f func() string) (out string) {
 	defer func() {
 		if e := recover(); e != nil {
 			out = "PANIC"
@@ -358,7 +358,7 @@ type snapshot struct {
 
 func (s *snapshot) add(name string, f func() string) {
 	s.names = append(s.names, name)
-	s.parts = append(s.parts, guard(f))
+	s.parts = append(s.parts, aliasGuard(f))
 }
 
 func (s *snapshot) diff(t *snapshot) (string, string) {
